@@ -101,7 +101,7 @@ macro_rules! lag_kind {
     ($fname:ident, $kname:expr, $Obs:ty, $Sub:ty, $Mir:ty, $Ev:ty, $Cont:ty,
      from_init: $from_init:expr, decode: $decode:expr, apply: $apply:expr, enc_ev: $enc_ev:expr,
      enc_cont: $enc_cont:expr, cont_of: $cont_of:expr, hand: $hand:expr, init_events: $init_events:expr,
-     ic: $ic:expr, done: $done:expr, canon: $canon:expr, size: $size:expr, hash_order: $hash_order:expr) => {
+     ic: $ic:expr, done: $done:expr, canon: $canon:expr, size: $size:expr, hash_order: $hash_order:expr, checked: $checked:expr) => {
         fn $fname(init: &[u128], steps: &[Step]) -> Option<Outcome> {
             struct S {
                 is_mirror: bool,
@@ -136,6 +136,7 @@ macro_rules! lag_kind {
                 }
                 let mut history: Vec<$Ev> = Vec::new();
                 let mut states: Vec<$Cont> = vec![cont0.clone()];
+                let mut checked_size: Vec<usize> = Vec::new(); // per event of the history
                 let mut coll_done = false;
                 let mut dropped_before_done = false;
                 let mut subs: Vec<S> = Vec::new();
@@ -148,6 +149,8 @@ macro_rules! lag_kind {
                                     Ok(Ok(Some(e))) => {
                                         let mut c = states.last().unwrap().clone();
                                         $hand(&mut c, &e);
+                                        // size right after an event whose handling checks max_size
+                                        checked_size.push(if $checked(&e) { $size(&c) } else { 0 });
                                         states.push(c);
                                         if e == $done {
                                             coll_done = true;
@@ -336,6 +339,12 @@ macro_rules! lag_kind {
                             if live && rec.done != coll_done && !(dropped_before_done) {
                                 fail(&mut oracle, format!("mirror {i}: done flag {} but collection done {}", rec.done, coll_done));
                             }
+                            // the size limit: an event that is checked against max_size took the mirror beyond it
+                            let over = checked_size[s.start..upto - 1].iter().any(|n| *n > s.mx)
+                                || (s.incr && $size(&s.snapshot) > s.mx);
+                            if over {
+                                fail(&mut oracle, format!("mirror {i}: max_size {} exceeded but no error reported (contents {:?})", s.mx, rec.cont));
+                            }
                             if live && dropped_before_done {
                                 fail(&mut oracle, format!("mirror {i}: collection dropped before done but no error reported"));
                             }
@@ -445,7 +454,8 @@ lag_kind!(exec_vec, "vec", vec::ObservableVec<u64, Cd>, vec::VecSubscription<u64
     init_events: |c: &Vec<u64>| c.iter().map(|x| vec::VecEvent::Push(*x)).collect::<Vec<_>>(),
     ic: vec::VecEvent::InitialComplete, done: vec::VecEvent::Done,
     canon: |_l: &mut Vec<vec::VecEvent<u64>>| (),
-    size: |c: &Vec<u64>| c.len(), hash_order: false);
+    size: |c: &Vec<u64>| c.len(), hash_order: false,
+    checked: |e: &vec::VecEvent<u64>| matches!(e, vec::VecEvent::Push(_)));
 
 lag_kind!(exec_deque, "deque", vec_deque::ObservableVecDeque<u64, Cd>, vec_deque::VecDequeSubscription<u64, Cd>,
     vec_deque::MirroredVecDeque<u64, Cd>, vec_deque::VecDequeEvent<u64>, VecDeque<u64>,
@@ -459,7 +469,8 @@ lag_kind!(exec_deque, "deque", vec_deque::ObservableVecDeque<u64, Cd>, vec_deque
     init_events: |c: &VecDeque<u64>| c.iter().map(|x| vec_deque::VecDequeEvent::PushBack(*x)).collect::<Vec<_>>(),
     ic: vec_deque::VecDequeEvent::InitialComplete, done: vec_deque::VecDequeEvent::Done,
     canon: |_l: &mut Vec<vec_deque::VecDequeEvent<u64>>| (),
-    size: |c: &VecDeque<u64>| c.len(), hash_order: false);
+    size: |c: &VecDeque<u64>| c.len(), hash_order: false,
+    checked: |e: &vec_deque::VecDequeEvent<u64>| matches!(e, vec_deque::VecDequeEvent::PushBack(_) | vec_deque::VecDequeEvent::PushFront(_)));
 
 // ---- hash map / hash set: own small op encoding (single-event calls)
 #[derive(Debug, Clone)]
@@ -607,7 +618,8 @@ lag_kind!(exec_map, "map", hash_map::ObservableHashMap<u64, u64, Cd>, hash_map::
     init_events: |c: &BTreeMap<u64, u64>| c.iter().map(|(k, v)| hash_map::HashMapEvent::Set(*k, *v)).collect::<Vec<_>>(),
     ic: hash_map::HashMapEvent::InitialComplete, done: hash_map::HashMapEvent::Done,
     canon: map_canon,
-    size: |c: &BTreeMap<u64, u64>| c.len(), hash_order: true);
+    size: |c: &BTreeMap<u64, u64>| c.len(), hash_order: true,
+    checked: |e: &hash_map::HashMapEvent<u64, u64>| matches!(e, hash_map::HashMapEvent::Set(..)));
 
 lag_kind!(exec_set, "set", hash_set::ObservableHashSet<u64, Cd>, hash_set::HashSetSubscription<u64, Cd>,
     hash_set::MirroredHashSet<u64, Cd>, hash_set::HashSetEvent<u64>, BTreeSet<u64>,
@@ -625,7 +637,8 @@ lag_kind!(exec_set, "set", hash_set::ObservableHashSet<u64, Cd>, hash_set::HashS
     init_events: |c: &BTreeSet<u64>| c.iter().map(|k| hash_set::HashSetEvent::Set(*k)).collect::<Vec<_>>(),
     ic: hash_set::HashSetEvent::InitialComplete, done: hash_set::HashSetEvent::Done,
     canon: set_canon,
-    size: |c: &BTreeSet<u64>| c.len(), hash_order: true);
+    size: |c: &BTreeSet<u64>| c.len(), hash_order: true,
+    checked: |e: &hash_set::HashSetEvent<u64>| matches!(e, hash_set::HashSetEvent::Set(_)));
 
 // ------------------------------------------------------------------------------------------------
 // append-only list
